@@ -61,11 +61,12 @@ VARIABLES
     ncrash,     \* crashes so far
     naux,       \* auxiliary records / corruptions so far
     lastRec,    \* result of the last completed recovery: [n, lo, ok]
+    rdr,        \* a concurrent reader in the middle of a lookup: [pc, loc, seen, got]
     trace       \* history of steps (only when Gen)
 
 vars == <<hist, logical, calls, queue, nextCid, covl, lw, nextRid, logs, rpos, lovl, cw,
           lastEnacted, tabs, dtabs, flushedCq, durable, mode, rcv, ncrash, naux,
-          lastRec, trace>>
+          lastRec, rdr, trace>>
 
 ----------------------------------------------------------------------------
 (* Data *)
@@ -185,9 +186,14 @@ NumCq == Cardinality(FileIdx("cq"))
 EntState(s) == [c \in Cols |-> [k \in Keys |-> s[<<c, k>>]]]
 Alts(h) == [n \in 1..Len(h) + 1 |-> EntState(StateAfter(h, n - 1))]
 WithBounds == Feat \cap {"crash", "power", "iofail", "corrupt"} # {}
+\* cnt = the full entries ([v, rc]) when the pipeline is completely drained (value iteration
+\* of a reference-counted hash column must then report exactly these counts), else <<>>.
+Drained == queue = <<>> /\ lw.pc = "idle" /\ cw.pc = "idle" /\ mode = "open"
+           /\ \A i \in 1..Len(logs) : logs[i].st = "cq"
 Log(e) == trace' = IF ~Gen THEN trace
-                   ELSE IF WithBounds THEN Append(trace, e @@ [lo |-> durable, alts |-> Alts(hist')])
-                   ELSE Append(trace, e)
+                   ELSE LET e2 == e @@ [cnt |-> IF Drained' THEN EntState(logical') ELSE <<>>] IN
+                        IF WithBounds THEN Append(trace, e2 @@ [lo |-> durable, alts |-> Alts(hist')])
+                        ELSE Append(trace, e2)
 NoLog  == UNCHANGED trace
 
 ----------------------------------------------------------------------------
@@ -201,18 +207,56 @@ Init ==
     /\ mode = "open" /\ rcv = [f |-> 0, r |-> 0, any |-> FALSE]
     /\ ncrash = 0 /\ naux = 0
     /\ lastRec = [n |-> 0, lo |-> 0, ok |-> TRUE]
+    /\ rdr = [pc |-> "idle"]
     /\ trace = <<>>
+
+----------------------------------------------------------------------------
+(* A concurrent reader (db.rs DbInner::get).  The commit-overlay read lock is held for the
+   whole lookup; below it the log overlay and the tables are consulted one after the
+   other, each under its own short lock, while the workers keep moving data. *)
+
+CovlReadLocked == rdr.pc \in {"lovl", "tabs"}
+
+OthersUnchanged == UNCHANGED <<hist, logical, calls, queue, nextCid, covl, lw, nextRid, logs, rpos, lovl,
+                               cw, lastEnacted, tabs, dtabs, flushedCq, durable, mode, rcv, ncrash,
+                               naux, lastRec, trace>>
+
+RStart(l) ==
+    /\ "reader" \in Feat /\ mode = "open" /\ rdr.pc = "idle"
+    /\ rdr' = IF covl[l].cid # 0
+              THEN [pc |-> "done", loc |-> l, seen |-> {Vis(logical[l])}, got |-> covl[l].v]
+              ELSE [pc |-> "lovl", loc |-> l, seen |-> {Vis(logical[l])}, got |-> 0]
+    /\ OthersUnchanged
+
+RLovl ==
+    /\ rdr.pc = "lovl"
+    /\ rdr' = IF lovl[rdr.loc].rid # 0
+              THEN [rdr EXCEPT !.pc = "done", !.got = Vis(lovl[rdr.loc].e)]
+              ELSE [rdr EXCEPT !.pc = "tabs"]
+    /\ OthersUnchanged
+
+RTabs ==
+    /\ rdr.pc = "tabs"
+    /\ rdr' = [rdr EXCEPT !.pc = "done", !.got = Vis(tabs[rdr.loc])]
+    /\ OthersUnchanged
+
+RFinish ==
+    /\ rdr.pc = "done"
+    /\ rdr' = [pc |-> "idle"]
+    /\ OthersUnchanged
 
 ----------------------------------------------------------------------------
 (* Client *)
 
 \* db.rs commit_raw: under the queue mutex and the covl write lock.
 Commit(tx) ==
-    /\ mode = "open" /\ calls < MaxCalls /\ ValidTx(tx)
+    /\ mode = "open" /\ calls < MaxCalls /\ ValidTx(tx) /\ ~CovlReadLocked
     /\ calls' = calls + 1
     /\ nextCid' = nextCid + 1
     /\ hist' = Append(hist, tx)
     /\ logical' = ApplyTx(logical, tx)
+    /\ rdr' = IF rdr.pc = "idle" THEN rdr
+              ELSE [rdr EXCEPT !.seen = @ \cup {Vis(ApplyTx(logical, tx)[rdr.loc])}]
     /\ queue' = Append(queue, [cid |-> nextCid + 1, h |-> Len(hist) + 1, tx |-> tx])
     /\ covl' = CovlAdd(covl, nextCid + 1, tx, 1)
     /\ UNCHANGED <<lw, nextRid, logs, rpos, lovl, cw, lastEnacted, tabs, dtabs,
@@ -227,7 +271,7 @@ Reject(tx) ==
     /\ calls' = calls + 1
     /\ UNCHANGED <<hist, logical, queue, nextCid, covl, lw, nextRid, logs, rpos, lovl, cw,
                    lastEnacted, tabs, dtabs, flushedCq, durable, mode, rcv, ncrash,
-                   naux, lastRec>>
+                   naux, lastRec, rdr>>
     /\ Log([a |-> "Commit", tx |-> tx, ok |-> FALSE, obs |-> Obs'])
 
 ----------------------------------------------------------------------------
@@ -246,27 +290,29 @@ PopAndPlan ==
        /\ queue' = Tail(queue)
        /\ nextRid' = nextRid + 1
     /\ UNCHANGED <<hist, logical, calls, nextCid, covl, logs, rpos, lovl, cw, lastEnacted, tabs,
-                   dtabs, flushedCq, durable, mode, rcv, ncrash, naux, lastRec>>
+                   dtabs, flushedCq, durable, mode, rcv, ncrash, naux, lastRec, rdr>>
     /\ NoLog
 
 \* log.rs end_record: append to the log file and publish into lovl (one write lock)
 EndRecord ==
-    /\ mode = "open" /\ Fine /\ lw.pc = "planned"
+    /\ mode = "open" /\ Fine
+    /\ lw.pc = (IF "clean_covl_first" \in Mut THEN "cleaned" ELSE "planned")
     /\ logs' = AppendRec(lw.rec)
     /\ lovl' = LovlAdd(lovl, lw.rec)
-    /\ lw' = [lw EXCEPT !.pc = "ended"]
+    /\ lw' = IF "clean_covl_first" \in Mut THEN Idle ELSE [lw EXCEPT !.pc = "ended"]
     /\ UNCHANGED <<hist, logical, calls, queue, nextCid, covl, nextRid, rpos, cw, lastEnacted,
-                   tabs, dtabs, flushedCq, durable, mode, rcv, ncrash, naux, lastRec>>
+                   tabs, dtabs, flushedCq, durable, mode, rcv, ncrash, naux, lastRec, rdr>>
     /\ NoLog
 
 \* the overlay entries of the commit are dropped only after lovl holds them
 CleanCovl ==
-    /\ mode = "open" /\ Fine /\ lw.pc = "ended"
+    /\ mode = "open" /\ Fine /\ ~CovlReadLocked
+    /\ lw.pc = (IF "clean_covl_first" \in Mut THEN "planned" ELSE "ended")
     /\ covl' = CovlClean(covl, lw.cid, lw.tx)
-    /\ lw' = Idle
+    /\ lw' = IF "clean_covl_first" \in Mut THEN [lw EXCEPT !.pc = "cleaned"] ELSE Idle
     /\ UNCHANGED <<hist, logical, calls, queue, nextCid, nextRid, logs, rpos, lovl, cw,
                    lastEnacted, tabs, dtabs, flushedCq, durable, mode, rcv, ncrash,
-                   naux, lastRec>>
+                   naux, lastRec, rdr>>
     /\ NoLog
 
 \* stepping API: Db::process_commits() = the three steps above, uninterrupted
@@ -280,7 +326,7 @@ ProcessCommit ==
        /\ lovl' = LovlAdd(lovl, rec)
        /\ covl' = CovlClean(covl, c.cid, c.tx)
     /\ UNCHANGED <<hist, logical, calls, nextCid, lw, rpos, cw, lastEnacted, tabs, dtabs,
-                   flushedCq, durable, mode, rcv, ncrash, naux, lastRec>>
+                   flushedCq, durable, mode, rcv, ncrash, naux, lastRec, rdr>>
     /\ Log([a |-> "ProcessCommit", obs |-> Obs'])
 
 \* A record that originates inside the database (reindex batch): consumes a record id,
@@ -291,18 +337,20 @@ AuxRecord ==
     /\ nextRid' = nextRid + 1
     /\ logs' = AppendRec([rid |-> nextRid, h |-> 0, cid |-> 0, w |-> <<>>])
     /\ UNCHANGED <<hist, logical, calls, queue, nextCid, covl, lw, rpos, lovl, cw, lastEnacted,
-                   tabs, dtabs, flushedCq, durable, mode, rcv, ncrash, lastRec>>
+                   tabs, dtabs, flushedCq, durable, mode, rcv, ncrash, lastRec, rdr>>
     /\ Log([a |-> "AuxRecord", obs |-> Obs'])
 
 ----------------------------------------------------------------------------
 (* Flush worker: log.rs flush_one *)
 
+\* (the flush worker may take the appending file while the log worker is between the
+\* steps of a commit: end_record then starts a new file)
 FlushLog ==
-    /\ mode = "open" /\ HasApp /\ LwIdle
+    /\ mode = "open" /\ HasApp
     /\ logs' = [logs EXCEPT ![Len(logs)].st = "rq"]
     /\ durable' = IF SyncWal THEN Max(durable, MaxH(logs[Len(logs)].recs, 1)) ELSE durable
     /\ UNCHANGED <<hist, logical, calls, queue, nextCid, covl, lw, nextRid, rpos, lovl, cw,
-                   lastEnacted, tabs, dtabs, flushedCq, mode, rcv, ncrash, naux, lastRec>>
+                   lastEnacted, tabs, dtabs, flushedCq, mode, rcv, ncrash, naux, lastRec, rdr>>
     /\ Log([a |-> "FlushLog", obs |-> Obs'])
 
 ----------------------------------------------------------------------------
@@ -326,7 +374,7 @@ LogEof ==
        /\ logs' = [logs EXCEPT ![f].st = "cq"]
     /\ rpos' = 0
     /\ UNCHANGED <<hist, logical, calls, queue, nextCid, covl, lw, nextRid, lovl, cw, lastEnacted,
-                   tabs, dtabs, flushedCq, durable, mode, rcv, ncrash, naux, lastRec>>
+                   tabs, dtabs, flushedCq, durable, mode, rcv, ncrash, naux, lastRec, rdr>>
     /\ Log([a |-> "EnactOne", obs |-> Obs'])
 
 EnactBegin ==
@@ -337,8 +385,9 @@ EnactBegin ==
                  todo |-> DOMAIN logs[n.f].recs[n.r].w]
        /\ logs' = IF logs[n.f].st = "rq" THEN [logs EXCEPT ![n.f].st = "rd"] ELSE logs
        /\ rpos' = n.r - 1
-    /\ UNCHANGED <<hist, logical, calls, queue, nextCid, covl, lw, nextRid, lovl, lastEnacted,
-                   tabs, dtabs, flushedCq, durable, mode, rcv, ncrash, naux, lastRec>>
+       /\ lovl' = IF "endread_first" \in Mut THEN LovlClean(lovl, logs[n.f].recs[n.r]) ELSE lovl
+    /\ UNCHANGED <<hist, logical, calls, queue, nextCid, covl, lw, nextRid, lastEnacted,
+                   tabs, dtabs, flushedCq, durable, mode, rcv, ncrash, naux, lastRec, rdr>>
     /\ NoLog
 
 EnactWrite(l) ==
@@ -346,7 +395,7 @@ EnactWrite(l) ==
     /\ tabs' = [tabs EXCEPT ![l] = cw.rec.w[l]]
     /\ cw' = [cw EXCEPT !.todo = @ \ {l}]
     /\ UNCHANGED <<hist, logical, calls, queue, nextCid, covl, lw, nextRid, logs, rpos, lovl,
-                   lastEnacted, dtabs, flushedCq, durable, mode, rcv, ncrash, naux, lastRec>>
+                   lastEnacted, dtabs, flushedCq, durable, mode, rcv, ncrash, naux, lastRec, rdr>>
     /\ NoLog
 
 EnactEnd ==
@@ -354,7 +403,7 @@ EnactEnd ==
     /\ lastEnacted' = cw.rec.rid
     /\ cw' = [cw EXCEPT !.pc = "written"]
     /\ UNCHANGED <<hist, logical, calls, queue, nextCid, covl, lw, nextRid, logs, rpos, lovl,
-                   tabs, dtabs, flushedCq, durable, mode, rcv, ncrash, naux, lastRec>>
+                   tabs, dtabs, flushedCq, durable, mode, rcv, ncrash, naux, lastRec, rdr>>
     /\ NoLog
 
 \* log.rs end_read: lovl entries dropped only after the tables hold them
@@ -364,7 +413,7 @@ EndRead ==
     /\ rpos' = rpos + 1
     /\ cw' = Idle
     /\ UNCHANGED <<hist, logical, calls, queue, nextCid, covl, lw, nextRid, logs, lastEnacted,
-                   tabs, dtabs, flushedCq, durable, mode, rcv, ncrash, naux, lastRec>>
+                   tabs, dtabs, flushedCq, durable, mode, rcv, ncrash, naux, lastRec, rdr>>
     /\ NoLog
 
 \* stepping API: one enact_logs(false) call that finds a record
@@ -379,7 +428,7 @@ EnactOne ==
        /\ logs' = IF logs[n.f].st = "rq" THEN [logs EXCEPT ![n.f].st = "rd"] ELSE logs
        /\ rpos' = n.r
     /\ UNCHANGED <<hist, logical, calls, queue, nextCid, covl, lw, nextRid, cw, dtabs, flushedCq,
-                   durable, mode, rcv, ncrash, naux, lastRec>>
+                   durable, mode, rcv, ncrash, naux, lastRec, rdr>>
     /\ Log([a |-> "EnactOne", obs |-> Obs'])
 
 ----------------------------------------------------------------------------
@@ -391,17 +440,19 @@ FlushTables ==
     /\ dtabs' = tabs
     /\ flushedCq' = NumCq
     /\ UNCHANGED <<hist, logical, calls, queue, nextCid, covl, lw, nextRid, logs, rpos, lovl, cw,
-                   lastEnacted, tabs, durable, mode, rcv, ncrash, naux, lastRec>>
+                   lastEnacted, tabs, durable, mode, rcv, ncrash, naux, lastRec, rdr>>
     /\ NoLog
 
 \* log.rs clean_logs: set_len(0) + sync_all of a file whose changes were flushed
 TruncateLog ==
-    /\ mode = "open" /\ Fine /\ flushedCq > 0
-    /\ logs[1].st = "cq"
+    /\ mode = "open" /\ Fine
+    /\ IF "truncate_any" \in Mut THEN Len(logs) > 0 /\ logs[1].st # "app" /\ cw.pc = "idle"
+       ELSE flushedCq > 0 /\ logs[1].st = "cq"
     /\ logs' = Tail(logs)
-    /\ flushedCq' = flushedCq - 1
-    /\ UNCHANGED <<hist, logical, calls, queue, nextCid, covl, lw, nextRid, rpos, lovl, cw,
-                   lastEnacted, tabs, dtabs, durable, mode, rcv, ncrash, naux, lastRec>>
+    /\ flushedCq' = IF flushedCq > 0 THEN flushedCq - 1 ELSE 0
+    /\ rpos' = IF logs[1].st = "rd" THEN 0 ELSE rpos
+    /\ UNCHANGED <<hist, logical, calls, queue, nextCid, covl, lw, nextRid, lovl, cw,
+                   lastEnacted, tabs, dtabs, durable, mode, rcv, ncrash, naux, lastRec, rdr>>
     /\ NoLog
 
 \* stepping API: Db::clean_logs()
@@ -411,7 +462,7 @@ Clean ==
     /\ logs' = SubSeq(logs, NumCq + 1, Len(logs))
     /\ flushedCq' = 0
     /\ UNCHANGED <<hist, logical, calls, queue, nextCid, covl, lw, nextRid, rpos, lovl, cw,
-                   lastEnacted, tabs, durable, mode, rcv, ncrash, naux, lastRec>>
+                   lastEnacted, tabs, durable, mode, rcv, ncrash, naux, lastRec, rdr>>
     /\ Log([a |-> "Clean", obs |-> Obs'])
 
 ----------------------------------------------------------------------------
@@ -433,7 +484,7 @@ DrainQueue(tb, q, i) ==
 \* kill_logs: enact what is logged, flush, log + enact the leftover commits, flush
 \* tables, delete logs.  Workers are joined first, so they are idle.
 CloseOpen ==
-    /\ "restart" \in Feat /\ mode = "open" /\ LwIdle /\ CwIdle
+    /\ "restart" \in Feat /\ mode = "open" /\ LwIdle /\ CwIdle /\ rdr.pc = "idle"
     /\ LET t1 == TabsApplyAll(tabs, UnenactedRecs, 1)
            t2 == DrainQueue(t1, queue, 1) IN
        /\ tabs' = t2 /\ dtabs' = t2
@@ -441,7 +492,7 @@ CloseOpen ==
     /\ logs' = <<>> /\ rpos' = 0 /\ flushedCq' = 0
     /\ nextRid' = 1 /\ nextCid' = 0 /\ lastEnacted' = 1
     /\ durable' = Len(hist)
-    /\ UNCHANGED <<hist, logical, calls, lw, cw, mode, rcv, ncrash, naux, lastRec>>
+    /\ UNCHANGED <<hist, logical, calls, lw, cw, mode, rcv, ncrash, naux, lastRec, rdr>>
     /\ Log([a |-> "CloseOpen", obs |-> Obs'])
 
 ----------------------------------------------------------------------------
@@ -449,7 +500,7 @@ CloseOpen ==
 
 Volatile ==
     /\ queue' = <<>> /\ covl' = [l \in Loc |-> NoCovl] /\ lovl' = [l \in Loc |-> NoLovl]
-    /\ lw' = Idle /\ cw' = Idle /\ nextCid' = 0
+    /\ lw' = Idle /\ cw' = Idle /\ nextCid' = 0 /\ rdr' = [pc |-> "idle"]
 
 \* what a log file keeps when the process dies: everything written (BufWriter is flushed
 \* at the end of every record); a record being appended may be torn.
@@ -504,7 +555,7 @@ RecoverStart ==
     /\ lastEnacted' = IF NonEmptyLogs = <<>> THEN 1 ELSE NonEmptyLogs[1].recs[1].rid - 1
     /\ rcv' = [f |-> 1, r |-> 0, any |-> FALSE]
     /\ UNCHANGED <<hist, logical, calls, queue, nextCid, covl, lw, nextRid, rpos, lovl, cw, tabs,
-                   dtabs, flushedCq, durable, ncrash, naux, lastRec>>
+                   dtabs, flushedCq, durable, ncrash, naux, lastRec, rdr>>
     /\ NoLog
 
 \* enact_logs(true): a record is applied only if it is complete, checksum-valid (a torn
@@ -523,7 +574,7 @@ RecoverRec ==
        ELSE /\ rcv' = [rcv EXCEPT !.f = @ + 1, !.r = 0]           \* next file
             /\ UNCHANGED <<tabs, lastEnacted>>
     /\ UNCHANGED <<hist, logical, calls, queue, nextCid, covl, lw, nextRid, logs, rpos, lovl, cw,
-                   dtabs, flushedCq, durable, mode, ncrash, naux, lastRec>>
+                   dtabs, flushedCq, durable, mode, ncrash, naux, lastRec, rdr>>
     /\ NoLog
 
 \* the recovered prefix: largest n with tabs = state after hist[1..n]
@@ -544,7 +595,7 @@ RecoverDone ==
     /\ nextRid' = IF rcv.any THEN lastEnacted + 1 ELSE 1
     /\ mode' = "open"
     /\ UNCHANGED <<calls, queue, nextCid, covl, lw, rpos, lovl, cw, lastEnacted, tabs,
-                   flushedCq, rcv, ncrash, naux>>
+                   flushedCq, rcv, ncrash, naux, rdr>>
     /\ Log([a |-> "Reopen", n |-> lastRec'.n, lo |-> lastRec'.lo, obs |-> Obs'])
 
 ----------------------------------------------------------------------------
@@ -558,7 +609,7 @@ CorruptTruncate(f, keep, torn) ==
     /\ logs' = [logs EXCEPT ![f].recs = SubSeq(@, 1, keep), ![f].partial = torn]
     /\ naux' = naux + 1
     /\ UNCHANGED <<hist, logical, calls, queue, nextCid, covl, lw, nextRid, rpos, lovl, cw,
-                   lastEnacted, tabs, dtabs, flushedCq, durable, mode, rcv, ncrash, lastRec>>
+                   lastEnacted, tabs, dtabs, flushedCq, durable, mode, rcv, ncrash, lastRec, rdr>>
     /\ Log([a |-> "CorruptTruncate", f |-> f, keep |-> keep, torn |-> torn])
 
 \* flip bits inside record r of file f: its checksum no longer matches
@@ -568,7 +619,7 @@ CorruptRecord(f, r) ==
     /\ logs' = [logs EXCEPT ![f].recs[r] = [rid |-> @.rid, h |-> @.h, cid |-> @.cid, w |-> @.w, bad |-> TRUE]]
     /\ naux' = naux + 1
     /\ UNCHANGED <<hist, logical, calls, queue, nextCid, covl, lw, nextRid, rpos, lovl, cw,
-                   lastEnacted, tabs, dtabs, flushedCq, durable, mode, rcv, ncrash, lastRec>>
+                   lastEnacted, tabs, dtabs, flushedCq, durable, mode, rcv, ncrash, lastRec, rdr>>
     /\ Log([a |-> "CorruptRecord", f |-> f, r |-> r])
 
 \* a log file disappears
@@ -578,7 +629,7 @@ CorruptDelete(f) ==
     /\ logs' = SubSeq(logs, 1, f - 1) \o SubSeq(logs, f + 1, Len(logs))
     /\ naux' = naux + 1
     /\ UNCHANGED <<hist, logical, calls, queue, nextCid, covl, lw, nextRid, rpos, lovl, cw,
-                   lastEnacted, tabs, dtabs, flushedCq, durable, mode, rcv, ncrash, lastRec>>
+                   lastEnacted, tabs, dtabs, flushedCq, durable, mode, rcv, ncrash, lastRec, rdr>>
     /\ Log([a |-> "CorruptDelete", f |-> f])
 
 ----------------------------------------------------------------------------
@@ -593,7 +644,7 @@ IoFailAppend(torn) ==
     /\ logs' = IF torn /\ HasApp THEN [logs EXCEPT ![Len(logs)].partial = TRUE] ELSE logs
     /\ mode' = "err"
     /\ UNCHANGED <<hist, logical, calls, nextCid, covl, lw, rpos, lovl, cw, lastEnacted, tabs,
-                   dtabs, flushedCq, durable, rcv, ncrash, naux, lastRec>>
+                   dtabs, flushedCq, durable, rcv, ncrash, naux, lastRec, rdr>>
     /\ Log([a |-> "IoFailAppend", obs |-> Obs'])
 
 \* enact_logs fails after writing the locations in `done` of the next record
@@ -605,7 +656,7 @@ IoFailEnact(done) ==
        /\ tabs' = [l \in Loc |-> IF l \in done THEN logs[n.f].recs[n.r].w[l] ELSE tabs[l]]
     /\ mode' = "err"
     /\ UNCHANGED <<hist, logical, calls, queue, nextCid, covl, lw, nextRid, logs, rpos, lovl, cw,
-                   lastEnacted, dtabs, flushedCq, durable, rcv, ncrash, naux, lastRec>>
+                   lastEnacted, dtabs, flushedCq, durable, rcv, ncrash, naux, lastRec, rdr>>
     /\ Log([a |-> "IoFailEnact", obs |-> Obs'])
 
 \* any other failing step (sync, truncate, flush): nothing changes but the mode
@@ -613,7 +664,7 @@ IoFailOther ==
     /\ "iofail" \in Feat /\ mode = "open" /\ LwIdle /\ CwIdle
     /\ mode' = "err"
     /\ UNCHANGED <<hist, logical, calls, queue, nextCid, covl, lw, nextRid, logs, rpos, lovl, cw,
-                   lastEnacted, tabs, dtabs, flushedCq, durable, rcv, ncrash, naux, lastRec>>
+                   lastEnacted, tabs, dtabs, flushedCq, durable, rcv, ncrash, naux, lastRec, rdr>>
     /\ Log([a |-> "IoFailOther", obs |-> Obs'])
 
 \* drop in the error state (kill_logs): fully enacted logs are truncated, nothing else is
@@ -631,6 +682,7 @@ DropErr ==
 ----------------------------------------------------------------------------
 Next ==
     \/ \E tx \in Txs : Commit(tx) \/ Reject(tx)
+    \/ (\E l \in Loc : RStart(l)) \/ RLovl \/ RTabs \/ RFinish
     \/ PopAndPlan \/ EndRecord \/ CleanCovl \/ ProcessCommit \/ AuxRecord
     \/ FlushLog
     \/ LogEof \/ EnactBegin \/ (\E l \in Loc : EnactWrite(l)) \/ EnactEnd \/ EndRead \/ EnactOne
@@ -655,7 +707,7 @@ Spec == Init /\ [][Next]_vars
 TypeOK ==
     /\ logical = StateAfter(hist, Len(hist))
     /\ mode \in {"open", "crashed", "recovering", "err"}
-    /\ lw.pc \in {"idle", "planned", "ended"}
+    /\ lw.pc \in {"idle", "planned", "ended", "cleaned"}
     /\ cw.pc \in {"idle", "writing", "written"}
     /\ durable \in 0..Len(hist)
 
@@ -667,6 +719,10 @@ ReadLatest ==
         THEN /\ Present(Logical[l]) => Get(l) = Logical[l].v
              /\ (queue = <<>> /\ LwIdle /\ mode = "open") => (Get(l) # 0 <=> Present(Logical[l]))
         ELSE Get(l) = Vis(Logical[l])
+
+\* C05: a read returns a value that was the latest for its key at some moment between
+\* the start and the end of the read.
+ReadInterval == (rdr.pc = "done" /\ ~IsRc(rdr.loc[1])) => rdr.got \in rdr.seen
 
 \* C05 (auxiliary): a key is never without a holder of its newest version.
 LayerHandOver ==
@@ -694,10 +750,10 @@ WalBeforeApply ==
 
 \* hide the history variable (and the bookkeeping that depends on it only through reads)
 \* for configs without crashes the history matters only through the logical state
-ViewLogical == <<logical, calls, queue, nextCid, covl, lw, nextRid, logs, rpos, lovl, cw,
+ViewLogical == <<rdr, logical, calls, queue, nextCid, covl, lw, nextRid, logs, rpos, lovl, cw,
                  lastEnacted, tabs, dtabs, flushedCq, durable, mode, rcv, ncrash, naux, lastRec>>
 
-ViewNoTrace == <<hist, logical, calls, queue, nextCid, covl, lw, nextRid, logs, rpos, lovl, cw,
+ViewNoTrace == <<rdr, hist, logical, calls, queue, nextCid, covl, lw, nextRid, logs, rpos, lovl, cw,
                  lastEnacted, tabs, dtabs, flushedCq, durable, mode, rcv, ncrash, naux, lastRec>>
 
 =============================================================================
